@@ -730,3 +730,117 @@ def c13_builders(tier='quick', seed=0):
                                 'flag / other script / surrogate by another key are rejected (single-sig both layouts, '
                                 'multisig 2-of-3, scripthash, graftroot and graftap both paths)',
                         'bound': f'{n} runs on seeded random keys, sigfields and flags'}}
+
+
+def c08_mutable_values(tier='quick', seed=0):
+    """C08, the part the sidecar's input assumption leaves out: the contracts assume sigfield1..8 are `bytes`
+    (immutable), so "the value under a str key is the same afterwards" is decided only as "the key is not
+    re-bound".  The real code also accepts *mutable* values there (bytearray sigfields concatenate fine,
+    OP_GET_VALUE serves bytearray / list values), and an instruction that mutates such a value in place
+    (`msg = cache[k]; msg += ...`) changes the embedder's entry without any store to the key.  Native,
+    bounded: short scripts over every opcode byte against caches holding bytearray / list values under
+    str keys; afterwards every str-keyed entry must be the same object, of the same type, with an equal
+    deep copy.  The key 'returned' is left out (known finding D5)."""
+    import copy
+    import signal
+    import tapescript.functions as F
+    from tapescript.classes import Tape, Stack
+    rnd = random.Random(seed)
+    code_of = {v[0]: k for k, v in F.opcodes.items()}
+    names = ['sigfield%d' % i for i in range(1, 9)] + ['timestamp', 'other', 'note']
+    sk = rnd.randbytes(32)
+
+    def get_value(key):
+        k = key.encode()
+        return bytes([code_of['OP_GET_VALUE'], len(k)]) + k
+
+    def mk_cache():
+        c = {}
+        for i in range(1, 9):
+            r = rnd.random()
+            if r < 0.45:
+                c['sigfield%d' % i] = bytearray(rnd.randbytes(rnd.randrange(0, 12)))
+            elif r < 0.7:
+                c['sigfield%d' % i] = rnd.randbytes(rnd.randrange(0, 12))
+        c['timestamp'] = rnd.randrange(0, 2 ** 33)
+        c['other'] = rnd.choice(([bytearray(b'ab'), b'cd', 5], bytearray(rnd.randbytes(5)),
+                                 (bytearray(b'x'), bytearray(b'yz')), [b'', bytearray()]))
+        c['note'] = rnd.choice(('text', 1.5, bytearray(b'\x01'), b'\x02'))
+        return c
+
+    def mk_stack():
+        s = Stack()
+        for _ in range(rnd.randrange(0, 6)):
+            s.put(rnd.choice((rnd.randbytes(rnd.randrange(0, 9)), rnd.randbytes(32), rnd.randbytes(64),
+                              rnd.randbytes(65), sk, b'\x01', b'\x00', b'\xff', b'')))
+        return s
+
+    def mk_script():
+        out = b''
+        for _ in range(rnd.randrange(1, 4)):
+            r = rnd.random()
+            if r < 0.3:
+                out += get_value(rnd.choice(names))
+            elif r < 0.4:
+                out += bytes([code_of['OP_SIGN'], rnd.choice((0, 1, 2, 0x80, rnd.randrange(256)))])
+            out += bytes([rnd.randrange(256)]) + rnd.choice((b'', rnd.randbytes(1), bytes([rnd.randrange(0, 4)]),
+                                                              bytes([0, rnd.randrange(0, 4)])))
+        if rnd.random() < 0.3:      # the same again inside TRY, so that a failing instruction does not end the run
+            body = out[:255]
+            out = bytes([code_of['OP_TRY_EXCEPT']]) + len(body).to_bytes(2, 'big') + body + b'\x00\x00' + body
+        return out + rnd.randbytes(rnd.randrange(0, 4))
+
+    class _Timeout(BaseException):
+        pass
+
+    def _alarm(*_):
+        raise _Timeout()
+
+    n = timeouts = 0
+    bad = None
+    codes_seen = set()
+    total = 40000 if tier == 'quick' else 200000
+    old = signal.signal(signal.SIGALRM, _alarm)
+    try:
+        for i in range(total):
+            cache = mk_cache()
+            script = bytes([i % 256]) + rnd.randbytes(rnd.randrange(0, 3)) if i < 2048 else mk_script()
+            codes_seen.add(script[0])
+            stack = mk_stack()
+            if rnd.random() < 0.5:
+                stack.put(sk)
+            ids = {k: id(v) for k, v in cache.items()}
+            snap = copy.deepcopy(cache)
+            init = (script.hex(), repr(snap), repr(stack.list()))
+            signal.setitimer(signal.ITIMER_REAL, 2.0)
+            try:
+                F.run_tape(Tape(script, flags=dict(F.flags)), stack, cache)
+            except _Timeout:
+                timeouts += 1
+            except (KeyboardInterrupt, SystemExit):
+                raise
+            except BaseException:
+                pass
+            finally:
+                signal.setitimer(signal.ITIMER_REAL, 0)
+            n += 1
+            for k, v in snap.items():
+                if k == 'returned':
+                    continue
+                now = cache.get(k, '<deleted>')
+                if k not in cache or id(now) != ids[k] or type(now) is not type(v) or now != v:
+                    bad = bad or {'script': init[0], 'cache': init[1], 'stack': init[2], 'key': k,
+                                  'before': repr(v), 'after': repr(now)}
+            for k in cache:
+                if isinstance(k, str) and k not in snap and k != 'returned':
+                    bad = bad or {'script': init[0], 'cache': init[1], 'stack': init[2], 'key added': k}
+            if bad:
+                break
+    finally:
+        signal.signal(signal.SIGALRM, old)
+    return {'obligations': [_ob('bounded/C08/mutable-values-under-str-keys', bad is None, bad)],
+            'bounded': {'what': 'no instruction mutates in place a bytearray / list value stored under a str key '
+                                '(same object, same type, equal deep copy after the run; key \'returned\' excluded: D5)',
+                        'bound': f'{n} seeded scripts of 1..3 instructions (every opcode byte first, {len(codes_seen)} '
+                                 f'distinct leading codes; GET_VALUE / SIGN biased; 30% wrapped in TRY), '
+                                 f'{timeouts} stopped by the 2 s watchdog'}}
